@@ -805,10 +805,15 @@ class Interp(object):
                         return fn.bind(ClassRef(qual))
                     # other decorators: ask the domain, default = see through
                     return fn.bind(inst) if inst is not None else fn
-                if kind == "expr":
-                    return self.eval(v, Env(), _FuncCtx(ci.module, q))
-                if kind == "unpack":
-                    return self.iterate(self.eval(v[0], Env(), _FuncCtx(ci.module, q)))[v[1]]
+                if kind in ("expr", "unpack"):
+                    # class-body expressions see the class-level names bound before them
+                    expr = v if kind == "expr" else v[0]
+                    env = Env()
+                    for nn in ast.walk(expr):
+                        if isinstance(nn, ast.Name) and nn.id in ci.attrs and nn.id != name and nn.id not in env.vars:
+                            env.vars[nn.id] = self.class_attr(q, nn.id, None, node)
+                    val = self.eval(expr, env, _FuncCtx(ci.module, q))
+                    return val if kind == "expr" else self.iterate(val)[v[1]]
         if inst is not None and inst.tag == "exc" and name in ("message", "args"):
             return inst.attrs.get("args", ())
         raise AbsRaise("AttributeError", ("%s has no attribute %s" % (qual, name),))
